@@ -1,8 +1,48 @@
 (* Properties/C02.v — Skip consumes exactly one well-formed value, on every skipper.
-   Only statements; every proof is [exact <lemma>]. (Being filled in: grammar facts first.) *)
-From GV Require Import Lib.Bytes Lib.Res Spec.ThriftGrammar Proofs.GrammarP.
+   Only statements; every proof is [exact <lemma>] (Proofs/GrammarP.v, Proofs/C02P.v). *)
+From GV Require Import Lib.Bytes Lib.Res Spec.ThriftGrammar Spec.RefParse Model.Skip.
+From GV Require Import Proofs.GrammarP Proofs.C02P.
 Open Scope N_scope.
 
-(* every value the grammar accepts is non-empty and lies inside the input *)
-Theorem C02_grammar_extent_bounded : forall t r n h, gparse t r = Ok (n, h) -> 1 <= n <= len r.
-Proof. exact gparse_bounds. Qed.
+(* ---------- the grammar (shared spec): encodings parse back, exactly ---------- *)
+(* enc v followed by ANY bytes parses as one value of extent |enc v| and height ch v *)
+Theorem C02_gparse_enc : forall t v rest,
+  wt t v = true -> gparse t (enc v ++ rest) = Ok (len (enc v), ch v).
+Proof. exact gparse_enc. Qed.
+
+(* the unbounded parser never runs out of fuel *)
+Theorem C02_gparse_fuel : forall t r, gparse t r <> Err E_FUEL.
+Proof. exact gparse_fuel. Qed.
+
+(* locality: the verdict depends only on the bytes consumed *)
+Theorem C02_gparse_local : forall t r r' n h,
+  gparse t r = Ok (n, h) -> take n r' = take n r -> gparse t r' = Ok (n, h).
+Proof. exact gparse_take. Qed.
+
+(* prefix-freeness: no strict prefix of an encoding is a complete value of that type *)
+Theorem C02_enc_prefix_free : forall t v p s,
+  wt t v = true -> enc v = p ++ s -> s <> [] -> forall n h, gparse t p <> Ok (n, h).
+Proof. exact enc_prefix_free. Qed.
+
+(* the extent of a well-typed value at the front of a byte string is unique *)
+Theorem C02_enc_unique_extent : forall t v1 v2 r1 r2,
+  wt t v1 = true -> wt t v2 = true -> enc v1 ++ r1 = enc v2 ++ r2 -> enc v1 = enc v2 /\ r1 = r2.
+Proof. exact enc_unique_extent. Qed.
+
+(* ---------- exactness, skipper by skipper ---------- *)
+(* Binary.Skip: every well-typed tree of container height <= 63, any trailing bytes *)
+Theorem C02_bskip_exact : forall t v rest,
+  wt t v = true -> (ch v <= 63)%nat -> wf rest ->
+  binary_skip (enc v ++ rest) t = Ok (len (enc v)).
+Proof. exact bskip_exact. Qed.
+
+(* ---------- non-vacuity ---------- *)
+(* list<struct{1: i32, 2: string}> with two elements, one of them the empty struct; and an
+   empty map whose type bytes are 0x80 / 0xff *)
+Example C02_nonvacuous :
+  let v := VList 12 [VStruct [(8, 1, VI32 5); (11, 2, VStr [1; 2; 3])]; VStruct []] in
+  let e := VMap 128 255 [] in
+  wt T_LIST v = true /\ (ch v <= 63)%nat /\ wf [9; 9] /\
+  binary_skip (enc v ++ [9; 9]) T_LIST = Ok 24 /\
+  wt T_MAP e = true /\ binary_skip (enc e) T_MAP = Ok 6.
+Proof. vm_compute. repeat split; try reflexivity; repeat constructor. Qed.
